@@ -233,6 +233,53 @@ example :
     modeExpiredShipped cfg (t0 + 400 * 86400) l = false ∧ modeExpired cfg (t0 + 400 * 86400) l = true := by
   decide
 
+/-! ## The expirer's own state in the crawler state file: the lease-age histogram
+
+`state["cycle-to-date"]["lease-age-histogram"]` is a dict `(minage, maxage) → count` in memory
+(`add_lease_age_to_histogram`, `increment`), is written to the state file in its JSON-safe form, a
+list of `[minage, maxage, count]` sorted by key (`get_state` → `convert_lease_age_histogram`), and
+is turned back into the dict by `add_initial_state` when a crawler is created from a state file
+saved inside a cycle (`dict(((minage, maxage), count) for …)`, the repair e6c3ed8).
+A Python dict is modelled as an association list in insertion order. -/
+
+abbrev HistKey := Int × Int
+abbrev Hist := List (HistKey × Nat)
+
+/-- `d.get(k, 0)` -/
+def histLookup (h : Hist) (k : HistKey) : Nat :=
+  match h.find? (fun e => e.1 == k) with
+  | some e => e.2
+  | none => 0
+
+/-- `d[k] = v` -/
+def dictSet (h : Hist) (k : HistKey) (v : Nat) : Hist :=
+  if h.any (fun e => e.1 == k) then h.map (fun e => if e.1 == k then (e.1, v) else e) else h ++ [(k, v)]
+
+/-- `bucket_number = int(age/bucket_interval)` (truncation towards zero) and the key built from it -/
+def histKeyOfAge (age : Int) : HistKey :=
+  let n := Int.tdiv age 86400
+  (n * 86400, n * 86400 + 86400)
+
+/-- `add_lease_age_to_histogram(age)`: `increment(d, k, 1)` -/
+def histAdd (h : Hist) (age : Int) : Hist :=
+  let k := histKeyOfAge age
+  dictSet h k (histLookup h k + 1)
+
+/-- tuple order on keys -/
+def histKeyLe (a b : HistKey) : Bool := decide (a.1 < b.1) || (a.1 == b.1 && decide (a.2 ≤ b.2))
+
+def histInsert (e : HistKey × Nat) : Hist → Hist
+  | [] => [e]
+  | x :: r => if histKeyLe e.1 x.1 then e :: x :: r else x :: histInsert e r
+
+/-- `convert_lease_age_histogram`: `for k in sorted(lah): (minage, maxage, lah[k])` -/
+def histToJson (h : Hist) : List (Int × Int × Nat) :=
+  (h.foldr histInsert []).map (fun e => (e.1.1, e.1.2, e.2))
+
+/-- `dict(((minage, maxage), count) for (minage, maxage, count) in lah)` -/
+def histFromJson (l : List (Int × Int × Nat)) : Hist :=
+  l.foldl (fun d t => dictSet d (t.1, t.2.1) t.2.2) []
+
 /-! ## Vocabulary of the C26 statements -/
 
 /-- 31 days, the documented lease duration (docs/garbage-collection.rst). -/
